@@ -207,7 +207,9 @@ func procRun(in procInput) (steps []procStep) {
 				}
 				now = base.Add(time.Duration(e.Tod))
 				raw := []byte{0, byte(nextID), byte(nextID >> 8), byte(nextID >> 16), byte(nextID >> 24), byte(level), byte(level >> 8), 0}
-				if in.FFCEvery > 0 && nextID%in.FFCEvery < 2 {
+				// (not in the fault-free recovery tail: the detector reports nothing for the two frames after a
+				// flat-field correction, and the tail's motion run must be seen)
+				if in.FFCEvery > 0 && nextID%in.FFCEvery < 2 && (in.Tail < 0 || ei < in.Tail) {
 					raw[7] = 1
 				}
 				step.ID = nextID
@@ -489,7 +491,8 @@ func procGen(rng *rand.Rand, i int, mode string) procInput {
 		// motion run of max(1, trigger) frames
 		in.Tail = len(in.Evs)
 		ttod := int64(in.WinStart) * 60e9 % dayNs
-		for j := 0; j < maxF+1; j++ {
+		// (+2: a correction on the last frames before the tail silences the detector for two more frames)
+		for j := 0; j < maxF+1+2; j++ {
 			in.Evs = append(in.Evs, procEv{K: "f", M: false, Tod: ttod})
 		}
 		run := in.Trigger
